@@ -16,7 +16,8 @@ RULE = ("histories: edits incl. flags, rename, description and deletes, then com
         "key change; distinct by history")
 TRUSTED_BASE = c02.TRUSTED_BASE + ["model/ChangePassword.v: symbolic AEAD (decryption succeeds only under the same key)"]
 ASSUMPTIONS = ["the strength of AES-GCM / XChaCha20 and of the KDF is not a theorem (idealised law)",
-               "account password and cipher changes are not exercised yet (folder password change and compaction are)"]
+               "account password (W) and account cipher (Z) changes are exercised on the implementation (data preserved, old password refused, "
+               "sign-in with the new one unlocks every folder); the Coq model covers the folder-level rewrite"]
 
 
 def corpus():
@@ -25,6 +26,9 @@ def corpus():
         "c12 k_flags_db cbe=db sbe=fs devs=1 hist=c0:a|c0:b|x0:a|g0:0:4|p0:0|z0:0|o0",
         "c12 k_pw cbe=fs sbe=fs devs=1 hist=c0:a|c0:b|u0:a|x0:b|p0:0|w0:0|o0|c0:c|w0:0|z0:0|o0",
         "c12 k_pw_db cbe=db sbe=fs devs=1 hist=c0:a|c0:b|u0:a|x0:b|p0:0|w0:0|o0|c0:c|w0:0|z0:0|o0",
+        "c12 k_acctpw cbe=fs sbe=fs devs=1 hist=c0:a|c0:b|w0:0|W0|o0|c0:c|z0:0|W0|o0",
+        "c12 k_acctpw_db cbe=db sbe=fs devs=1 hist=c0:a|f0:1|c0:b@1|w0:1|W0|o0|u0:b|o0",
+        "c12 k_cipher cbe=fs sbe=fs devs=1 hist=c0:a|c0:b|p0:0|Z0|o0|u0:a|Z0|o0|w0:0|o0",
     ]
 
 
@@ -41,8 +45,10 @@ def gen_cases(rng, tier):
             elif r < 0.58: ops.append("g0:0:%d" % rng.choice([1, 4, 5, 128]))
             elif r < 0.66: ops.append("p0:0")
             elif r < 0.72: ops.append("r0:0:%d" % rng.randrange(3))
-            elif r < 0.84: ops.append("z0:0")
-            elif r < 0.94: ops.append("w0:0")
+            elif r < 0.82: ops.append("z0:0")
+            elif r < 0.90: ops.append("w0:0")
+            elif r < 0.94: ops.append("W0")
+            elif r < 0.96: ops.append("Z0")
             else: ops.append("o0")
         ops += [rng.choice(["z0:0", "w0:0"]), "o0"]
         out.append("c12 g%d cbe=%s sbe=fs devs=1 hist=%s" % (j, "db" if j % 2 else "fs", "|".join(ops)))
@@ -76,6 +82,19 @@ def oracle(case, obs):
             live = len(cur.get(f, {"items": []})["items"])
             if ln != 1 + live:
                 fails.append({"oracle": "rewrite_log_length", "op": op[:1], "detail": "step %d %s: log has %d events, expected 1 + %d live secrets" % (st, op, ln, live)})
+        if op[:1] in ("W", "Z") and prev is not None:
+            if res != "ok":
+                fails.append({"oracle": "account_rekey_failed", "op": op[:1], "detail": "step %d %s: %s" % (st, op, res)})
+            elif cur != prev:
+                fails.append({"oracle": "rewrite_preserves", "op": op[:1], "detail": "step %d %s: folders before %s after %s" % (st, op, prev, cur)})
+        if op[:1] == "W" and res == "ok":
+            k = keychecks.get(st) or {}
+            if k.get("old_signin") != "err":
+                fails.append({"oracle": "old_key_rejected", "op": "W", "detail": "step %d: the old account password still signs in: %s" % (st, k)})
+            if k.get("new_signin") != "ok":
+                fails.append({"oracle": "new_key_unlocks", "op": "W", "detail": "step %d: sign-in with the new account password fails (every folder must unlock): %s" % (st, k)})
+        if op[:1] == "o" and res != "ok":
+            fails.append({"oracle": "reload_after_rekey", "detail": "step %d: signing in again failed: %s" % (st, res)})
         if op[:1] == "w" and res == "ok":
             k = keychecks.get(st)
             if k is None:
